@@ -73,6 +73,10 @@ func (ev *Env) one(v Val, what string) string {
 	if v.Nil {
 		return "0"
 	}
+	if v.Loc != nil && len(v.L) == 0 {
+		// an interior pointer (address of a field): identified by its object and path
+		return lockID(v)
+	}
 	if len(v.L) != 1 {
 		specFail("%s: expected a scalar, got %d components (type %v); use seq()/len()/isNil()", what, len(v.L), v.T)
 	}
@@ -493,6 +497,9 @@ func (ev *Env) equal(a, b Val) string {
 
 // isNilTerm: Go's `x == nil`
 func (ev *Env) isNilTerm(v Val) string {
+	if v.Loc != nil {
+		return "false" // the address of a field of an object that was dereferenced to form it
+	}
 	if v.T == nil {
 		return eq(ev.one(v, "nil comparison"), "0")
 	}
@@ -726,6 +733,19 @@ func (ev *Env) call(x *ast.CallExpr) Val {
 			specFail("unknown type %s", s)
 		}
 		return Val{T: t, L: []string{v.L[1]}}
+	case "ptr":
+		// ptr(i, "*pkg.T"): the integer i (an object reference, e.g. a registry payload) as a pointer of that type
+		v := arg(0)
+		lit, ok := x.Args[1].(*ast.BasicLit)
+		if !ok {
+			specFail("ptr needs a type string")
+		}
+		s, _ := strconv.Unquote(lit.Value)
+		t := ev.fx.E.typeByName(s)
+		if t == nil {
+			specFail("unknown type %s", s)
+		}
+		return Val{T: t, L: []string{ev.one(v, "ptr")}}
 	case "unboxv":
 		// unboxv(iface, "T"): the boxed value of non-pointer type T held by the interface
 		v := arg(0)
@@ -742,6 +762,10 @@ func (ev *Env) call(x *ast.CallExpr) Val {
 		ls := leaves(t)
 		r := Val{T: t, L: make([]string, len(ls))}
 		for i, l := range ls {
+			if fn := canonBox(t); fn != "" {
+				r.L[i] = "(un" + fn + " " + v.L[1] + ")"
+				continue
+			}
 			k := "H|" + bk + "|" + l.Path
 			ev.fx.regComp(k, "(Array Int "+l.Sort+")")
 			r.L[i] = sel(ev.cur.get(ev.fx, k), v.L[1])
@@ -893,6 +917,42 @@ func (ev *Env) call(x *ast.CallExpr) Val {
 			cs = append(cs, eq(fmt.Sprintf("(bat %s %d)", sq, i), fmt.Sprint(int(str[i]))))
 		}
 		return boolV(and(cs...))
+	case "mhas", "mtyp", "mval", "mlen":
+		// the contents of a map as mathematical arrays over key terms: mhas(m) : key -> Bool; for a map of
+		// interface values mtyp(m) / mval(m) : key -> Int (dynamic type / payload); mlen(m) its size
+		m := arg(0)
+		mt, ok := m.T.Underlying().(*types.Map)
+		if !ok {
+			specFail("%s needs a map", name)
+		}
+		has, vals, _ := ev.fx.mapComps(m.T)
+		ks := mapKeySort(mt)
+		switch name {
+		case "mhas":
+			return gval("(Array "+ks+" Bool)", sel(ev.cur.get(ev.fx, has), m.L[0]))
+		case "mlen":
+			return intV(sel(ev.cur.get(ev.fx, "M|"+typeKey(m.T)+"|#len"), m.L[0]))
+		case "mtyp":
+			return gval("(Array "+ks+" Int)", sel(ev.cur.get(ev.fx, vals[0]), m.L[0]))
+		default:
+			return gval("(Array "+ks+" Int)", sel(ev.cur.get(ev.fx, vals[len(vals)-1]), m.L[0]))
+		}
+	case "loc":
+		// loc(x, ".f.g"): the identity of the field at that path of the object x points to (what &x.f.g denotes)
+		v := arg(0)
+		lit, ok := x.Args[1].(*ast.BasicLit)
+		if !ok {
+			specFail("loc needs a field path string")
+		}
+		pth, _ := strconv.Unquote(lit.Value)
+		pt, ok := v.T.Underlying().(*types.Pointer)
+		if !ok {
+			specFail("loc needs a pointer")
+		}
+		return intV("(lockid " + v.L[0] + " " + fmt.Sprint(hashStr(rootKey(pt.Elem())+pth)) + ")")
+	case "mkey":
+		// mkey(k): the key term of a map key value
+		return intV(mapKey(arg(0)))
 	case "upd":
 		a, i, v := arg(0), arg(1), arg(2)
 		var it, vt string
